@@ -21,6 +21,8 @@ pub fn main() {
     "replay-jit" => crate::native_jit::replay_jit(&args[2..]),
     #[cfg(unix)]
     "replay-frame" => crate::native_jit::replay_frame(&args[2..]),
+    #[cfg(unix)]
+    "replay-irq" => crate::native_jit::replay_irq(&args[2..]),
     _ => { eprintln!("unknown command"); std::process::exit(2); }
   }
 }
@@ -41,6 +43,8 @@ fn tmpl_all() {
     println!("frame bepi {}", b[..n].iter().map(|x| format!("{:02x}", x)).collect::<String>());
   }
   let probes: [(u8, u8); 6] = [(0x00, 0x00), (0xff, 0xff), (0x55, 0xaa), (0xa5, 0x3c), (0x01, 0x80), (0x7f, 0xfe)];
+  // an emitter that consults the bus while translating must not crash the derivation: answer from the recording bus
+  crate::bus::install_hooks();
   let emitter = crate::emitter::Emitter::new(crate::jit::MEMPTR as *const mem::MemoryAreas);
   for (b0, cb) in all_encodings() {
     for (x, y) in probes.iter() {
